@@ -108,9 +108,13 @@ CLAIMED = {
             "orthonormal with the normalisation that makes the polar functions orthonormal over the pupil; every returned (variance, function) is "
             "an eigenpair of the kernel of ITS azimuthal order (piston-filtered relation for order 0); order-0 functions are piston free. "
             "gkl_azimuthal = 1 / cos / sin(m theta) rows, mutually orthogonal with mean squares 1, 1/2 (concrete grids); gkl_radii = equal-area grid "
-            "for symbolic ri; piston_orth orthogonal with a constant last column. NOT claimed: that the kernel handed to eigh is the azimuthal "
+            "for symbolic ri; piston_orth orthogonal with a constant last column. Cartesian part: pcgeom for symbolic ri (ncp 4-6 quick, up to 9 thorough, "
+            "ncmar 0-2; setpincs cut away) on every path: aperture = indicator of pixel centres in the annulus on the centred grid, cr / cp = each "
+            "pixel centre's radial index in the equal-area grid / azimuthal index, clipped into the grid; pol2car with map_coordinates "
+            "uninterpreted: masked = resampled inside the annulus and exactly 0 outside, unmasked = resampled everywhere, resampler asked for "
+            "(cr, cp), order 1. NOT claimed: that the kernel handed to eigh is the azimuthal "
             "transform of the Kolmogorov structure function (discretisation accuracy), positivity of the variances and tip/tilt first (facts "
-            "about that kernel), the Cartesian resampling (scipy.ndimage.map_coordinates) and the returned pupil",
+            "about that kernel), the interpolation arithmetic inside scipy.ndimage.map_coordinates",
             "eigh by contract; kernel eigenvalues assumed positive (used for the piston clause only); paths that exhaust the available azimuthal orders are not examined."),
     "C14": ("5 C14", "circle(r,n,c,origin) is exactly the indicator of pixel centres within r of c on every feasible path (symbolic r>=0 and centre, "
             "both origins, n<=4 quick / <=6 thorough: boundary-touching, half-pixel and off-array centres included) - nesting, symmetry and "
